@@ -776,9 +776,7 @@ namespace detail {
                         push_token(resources, token_type(resources.new_selector(parent_node_selector<Json,JsonReference>(ancestor_depth))), ec);
                         paths_required = true;
                         ancestor_depth = 0;
-                        ++p_;
-                        ++column_;
-                        state_stack_.pop_back();
+                        state_stack_.pop_back(); // every '^' was consumed in state ancestor_depth
                         break;
                     }
                     case path_state::ancestor_depth: 
